@@ -77,9 +77,10 @@ NA = {}
 PV = 'pyvc VC generator and its Python-semantics assumptions (DESIGN 3, 9); z3; int theory lemmas re-checked in lean/PyInt.lean (thorough tier)'
 PROVED = {
  'C01': ('Simulation._initialize (symbolic number of wires, 3 loop invariants: register_value_map > reset_value > default_value) and Simulation.step (input validation; phase order with loop invariants over ghost state) are also under contract', None),
+ 'C05': ('P: translation validation for ALL widths of the per-net Verilog emitters - the assign statement printed by the real loop body of _to_verilog_combinational (executed from the real source on a model net with symbolic widths) is parsed back and read under the IEEE 1364-2001 expression width rules, and equals the documented value of the primitive (w ~ & | ^ + - * < > = x, concat of 1..3 pieces, select shapes) for every operand value, discharged by z3; then ', 'per-net emitters proved for all widths (P); '),
  'C02': ('P: translation validation for ALL widths of the FastSimulation per-op expression templates (real simple_func templates evaluated from source, emitted text parsed back) with the real _no_mask_bitwidth mask-elision rule, discharged by z3; PB: translation validation of every emitted C op of CompiledSimulation at limb-crossing widths (elab/cemit); multi-limb multiply on limb-pattern stimuli; then ',
          'FastSimulation per-op emission proved for all widths/values (P); C emitters per width instance (PB); whole programs bounded (B)'),
- 'C03': ('P: contracts on the real gate-level generators _one_bit_add, _add_helper (induction on operand length), _basic_add, _basic_sub, _basic_lt (induction), _basic_gt over the builder model (wire = (bitwidth, den); add_net = WF obligation + documented value), discharged by z3 for all widths and values; then ',
+ 'C03': ('P: contracts on the real gate-level generators _one_bit_add, _add_helper (induction on operand length), _basic_add, _basic_sub, _basic_lt (induction), _basic_gt, _basic_eq, or_all_bits, tree_reduce (induction on the vector length; the higher-order precondition `op is OR on one-bit wires` is discharged at each call site by executing the passed lambda on two arbitrary one-bit wires) over the builder model (wire = (bitwidth, den); add_net = WF obligation + documented value), discharged by z3 for all widths and values; then ',
          'adder / subtractor / comparator generators proved for all widths (P); _basic_mult, synthesize glue and maps bounded per design (PB)'),
  'C04': ('P: contract on the nested function _constant_prop_pass.constant_prop_check (every folding rule computes the documented value of the replaced net, all widths/values) and the CSE symmetry lemma over the real constant ops_where_arg_order_matters, discharged by z3; then ',
          'folding rules and CSE argument-sorting proved (P); pass-level equivalence bounded per design (PB)'),
